@@ -49,6 +49,12 @@ func main() {
 				break
 			}
 		}
+	case "methyield":
+		// instrument methyield <dir> <local yield function> : in every non-test file of <dir> (except the injected
+		// verif_* files) a scheduling point is inserted before each statement that calls a sync/atomic function or a
+		// method named like the operations of the typed atomics (Load, Store, Swap, CompareAndSwap, Add, And, Or).
+		// The match is by name, not by type: a scheduling point too many is harmless, one too few hides a window.
+		err = yieldBeforeAtomicMethods(os.Args[2], os.Args[3])
 	case "atomics":
 		for _, f := range os.Args[3-1:] {
 			if e := yieldBeforeAtomics(f); e != nil {
@@ -320,6 +326,103 @@ func yieldAtFuncEntry(dir, yieldFn string) error {
 		}
 	}
 	fmt.Printf("instrument: %s: scheduling point at the entry of %d functions\n", dir, total)
+	return nil
+}
+
+func yieldBeforeAtomicMethods(dir, fn string) error {
+	ents, err := os.ReadDir(dir)
+	if err != nil {
+		return err
+	}
+	names := map[string]bool{"Load": true, "Store": true, "Swap": true, "CompareAndSwap": true, "Add": true, "And": true, "Or": true}
+	for _, e := range ents {
+		n := e.Name()
+		if e.IsDir() || !strings.HasSuffix(n, ".go") || strings.HasSuffix(n, "_test.go") || strings.HasPrefix(n, "verif_") {
+			continue
+		}
+		path := filepath.Join(dir, n)
+		fset := token.NewFileSet()
+		f, err := parser.ParseFile(fset, path, nil, parser.ParseComments)
+		if err != nil {
+			return err
+		}
+		at := importName(f, "sync/atomic")
+		isCall := func(nd ast.Node) bool {
+			c, ok := nd.(*ast.CallExpr)
+			if !ok {
+				return false
+			}
+			sel, ok := c.Fun.(*ast.SelectorExpr)
+			if !ok {
+				return false
+			}
+			if x, ok := sel.X.(*ast.Ident); ok && at != "" && x.Name == at && x.Obj == nil {
+				return true // atomic.LoadInt32(...), atomic.StoreUint32(...), ...
+			}
+			return names[sel.Sel.Name]
+		}
+		shallowHas := func(st ast.Stmt) bool {
+			found := false
+			ast.Inspect(st, func(nd ast.Node) bool {
+				if nd == nil || found {
+					return false
+				}
+				switch nd.(type) {
+				case *ast.BlockStmt, *ast.FuncLit:
+					return false
+				}
+				if isCall(nd) {
+					found = true
+					return false
+				}
+				return true
+			})
+			return found
+		}
+		count := 0
+		fix := func(list []ast.Stmt) []ast.Stmt {
+			var out []ast.Stmt
+			for _, st := range list {
+				if es, ok := st.(*ast.ExprStmt); ok {
+					if c, ok := es.X.(*ast.CallExpr); ok {
+						if id, ok := c.Fun.(*ast.Ident); ok && id.Name == fn {
+							out = append(out, st) // already a scheduling point
+							continue
+						}
+					}
+				}
+				if shallowHas(st) {
+					count++
+					out = append(out, &ast.ExprStmt{X: &ast.CallExpr{Fun: &ast.Ident{Name: fn, NamePos: st.Pos()},
+						Args: []ast.Expr{&ast.BasicLit{Kind: token.STRING, Value: `"atomic"`}}}})
+				}
+				out = append(out, st)
+			}
+			return out
+		}
+		ast.Inspect(f, func(nd ast.Node) bool {
+			switch x := nd.(type) {
+			case *ast.BlockStmt:
+				x.List = fix(x.List)
+			case *ast.CaseClause:
+				x.Body = fix(x.Body)
+			case *ast.CommClause:
+				x.Body = fix(x.Body)
+			}
+			return true
+		})
+		if count == 0 {
+			continue
+		}
+		f.Comments = nil
+		var buf bytes.Buffer
+		if err := format.Node(&buf, fset, f); err != nil {
+			return err
+		}
+		if err := os.WriteFile(path, buf.Bytes(), 0o644); err != nil {
+			return err
+		}
+	}
 	return nil
 }
 
